@@ -761,6 +761,15 @@ func genRelayPlan(seed uint64, tier string, focus string) *Plan {
 		}
 		if op.S["next"] == "tcp" {
 			tcpRouted = append(tcpRouted, op.ID)
+		} else if op.S["route"] == "none" || op.S["route"] == "own" {
+			// possibly handed to a TCP backend over a connection the proxy dials: the backend may send requests of its
+			// own back over that connection (skipped at run time when the relay was not over TCP)
+			for _, b := range p.Cfg.Listens[op.Listen].Backends {
+				if strings.HasPrefix(b, "tcp://") {
+					tcpRouted = append(tcpRouted, op.ID)
+					break
+				}
+			}
 		}
 		if g.chance(40) {
 			op.S["answer"] = g.pick("200", "180,200", "100,200", "404", "183")
